@@ -16,7 +16,9 @@ T3 call-site facts (booleans the model of model/Record.v branches on):
                                        rich 9.10.0 as found, where the test only guarded the unstyled branch
   href_is_escaped                      export_html passes style.link through an escaping call before
                                        putting it into href="..." (absent in 9.10.0)
-Everything else at these sites must have the expected shape (fail closed).
+The facts are derived from the BEHAVIOUR of the statement blocks (a tiny symbolic executor: outcome per truth
+assignment of the named conditions, aliases resolved), not from their layout; what the executor does not
+understand is Untranslatable (fail closed).
 """
 import ast, sys
 
@@ -33,22 +35,182 @@ def _const_str(node, what):
     raise Untranslatable(f"{what}: not a string constant")
 
 
-def _control_calls(fn):
-    """all  self.control(<arg>)  calls in a method"""
-    out = []
+# ------------------------------------------------------------------ a tiny symbolic executor
+# Facts are read off the BEHAVIOUR of small statement blocks (outcome per truth assignment of a few named
+# conditions), not off their layout: local single-assignment aliases are resolved, `if not c: A else: B`,
+# elif chains, early `continue`/`return`, conditional expressions and reordered conjunctions all evaluate
+# to the same table.  Anything the executor does not understand is Untranslatable (fail closed).
+import copy
+
+
+def _names(t):
+    if isinstance(t, ast.Name):
+        return [t.id]
+    if isinstance(t, (ast.Tuple, ast.List)):
+        return [n for e in t.elts for n in _names(e)]
+    return []
+
+
+_ALIAS_OK = (ast.Attribute, ast.Name, ast.UnaryOp, ast.BoolOp, ast.Compare, ast.Call, ast.IfExp)
+
+
+def _aliases(fn):
+    """local names assigned exactly once to a side-effect-free expression (append = output.append, ...)"""
+    params = {a.arg for a in fn.args.args + fn.args.kwonlyargs}
+    counts, vals = {}, {}
     for n in ast.walk(fn):
-        if (isinstance(n, ast.Call) and isinstance(n.func, ast.Attribute) and n.func.attr == "control"
-                and isinstance(n.func.value, ast.Name) and n.func.value.id == "self"):
-            if len(n.args) != 1 or n.keywords:
-                raise Untranslatable(f"{fn.name}: control() call with unexpected arguments")
-            out.append(n.args[0])
+        if isinstance(n, ast.Assign):
+            for t in n.targets:
+                for nm in _names(t):
+                    counts[nm] = counts.get(nm, 0) + 1
+                if isinstance(t, ast.Name):
+                    vals[t.id] = n.value
+        elif isinstance(n, ast.AnnAssign) and isinstance(n.target, ast.Name):
+            counts[n.target.id] = counts.get(n.target.id, 0) + 1
+            vals[n.target.id] = n.value
+        elif isinstance(n, ast.AugAssign):
+            for nm in _names(n.target):
+                counts[nm] = counts.get(nm, 0) + 2
+        elif isinstance(n, (ast.For, ast.comprehension)):
+            for nm in _names(n.target):
+                counts[nm] = counts.get(nm, 0) + 2
+    out = {}
+    for k, v in vals.items():
+        if counts.get(k) == 1 and k not in params and v is not None and (
+                isinstance(v, _ALIAS_OK) or (isinstance(v, ast.Constant) and isinstance(v.value, str))):
+            out[k] = v
     return out
 
 
-def _ifexp(node, testname, what):
-    if not (isinstance(node, ast.IfExp) and isinstance(node.test, ast.Name) and node.test.id == testname):
-        raise Untranslatable(f"{what}: expected  A if {testname} else B")
-    return _const_str(node.body, what), _const_str(node.orelse, what)
+class _Subst(ast.NodeTransformer):
+    def __init__(self, al, depth=0):
+        self.al, self.depth = al, depth
+
+    def visit_Name(self, node):
+        if isinstance(node.ctx, ast.Load) and node.id in self.al:
+            if self.depth > 8:
+                raise Untranslatable("alias resolution does not terminate")
+            return _Subst(self.al, self.depth + 1).visit(copy.deepcopy(self.al[node.id]))
+        return node
+
+
+def _resolve(expr, al):
+    return _Subst(al).visit(copy.deepcopy(expr))
+
+
+def _cmp_key(a, b):
+    return "==:" + "|".join(sorted([ast.unparse(a), ast.unparse(b)]))
+
+
+def _ev(expr, env, what):
+    """truth value of a condition under env (keys: source text of the atoms)"""
+    if isinstance(expr, ast.Constant) and isinstance(expr.value, bool):
+        return expr.value
+    if isinstance(expr, ast.UnaryOp) and isinstance(expr.op, ast.Not):
+        return not _ev(expr.operand, env, what)
+    if isinstance(expr, ast.BoolOp):
+        vals = [_ev(v, env, what) for v in expr.values]
+        return all(vals) if isinstance(expr.op, ast.And) else any(vals)
+    if isinstance(expr, ast.Compare) and len(expr.ops) == 1 and isinstance(expr.ops[0], (ast.Eq, ast.NotEq)):
+        k = _cmp_key(expr.left, expr.comparators[0])
+        if k in env:
+            return env[k] if isinstance(expr.ops[0], ast.Eq) else not env[k]
+    k = ast.unparse(expr)
+    if k in env:
+        return env[k]
+    raise Untranslatable(f"{what}: cannot evaluate the condition `{k}`")
+
+
+def _pick(expr, env, what):
+    """resolve conditional expressions in a value"""
+    while isinstance(expr, ast.IfExp):
+        expr = expr.body if _ev(expr.test, env, what) else expr.orelse
+    return expr
+
+
+class _Stop(Exception):
+    pass
+
+
+def _exec(stmts, env, al, handler, what):
+    """run a statement block under env; handler(stmt) -> True when it consumed the statement"""
+    for st in stmts:
+        if isinstance(st, ast.Expr) and isinstance(st.value, ast.Constant):
+            continue                                   # docstring
+        if isinstance(st, (ast.Pass, ast.Assert)):
+            continue
+        if isinstance(st, ast.If):
+            branch = st.body if _ev(_resolve(st.test, al), env, what) else st.orelse
+            _exec(branch, env, al, handler, what)
+            continue
+        if isinstance(st, (ast.Continue, ast.Return, ast.Break)):
+            if isinstance(st, ast.Return) and st.value is not None:
+                raise Untranslatable(f"{what}: return with a value inside the block")
+            raise _Stop()
+        if handler(st):
+            continue
+        if isinstance(st, (ast.Assign, ast.AnnAssign)):
+            tg = st.targets if isinstance(st, ast.Assign) else [st.target]
+            if all(isinstance(t, ast.Name) and t.id in al for t in tg):
+                continue                               # definition of an alias
+        raise Untranslatable(f"{what}: statement not understood: `{ast.unparse(st)[:60]}`")
+
+
+def _run(stmts, env, al, handler, what):
+    try:
+        _exec(stmts, env, al, handler, what)
+    except _Stop:
+        pass
+
+
+def _control_strings(fn, env):
+    """the strings passed to self.control(...) when the method body runs under env"""
+    al = _aliases(fn)
+    got = []
+
+    def handler(st):
+        if (isinstance(st, ast.Expr) and isinstance(st.value, ast.Call)
+                and ast.unparse(_resolve(st.value.func, al)) == "self.control"):
+            c = st.value
+            if len(c.args) != 1 or c.keywords:
+                raise Untranslatable(f"{fn.name}: control() call with unexpected arguments")
+            got.append(_const_str(_pick(_resolve(c.args[0], al), env, fn.name), fn.name))
+            return True
+        return False
+    _run(fn.body, env, al, handler, fn.name)
+    return got
+
+
+def _first_param(fn):
+    ps = [a.arg for a in fn.args.args if a.arg != "self"]
+    if len(ps) != 1:
+        raise Untranslatable(f"{fn.name}: expected exactly one parameter")
+    return ps[0]
+
+
+def _replace_chain(fdef, local_fns, depth=0):
+    """[(old, new), ...] applied by a local one-argument function made of .replace calls / calls of such functions"""
+    if depth > 4 or len(fdef.args.args) != 1:
+        raise Untranslatable(f"{fdef.name}: not a one-argument replace chain")
+    param = fdef.args.args[0].arg
+    rets = [n for n in fdef.body if isinstance(n, ast.Return)]
+    if len(rets) != 1 or len([n for n in fdef.body if not (isinstance(n, ast.Expr) and isinstance(n.value, ast.Constant))]) != 1:
+        raise Untranslatable(f"{fdef.name}: expected a single return statement")
+
+    def expand(node):
+        if isinstance(node, ast.Name) and node.id == param:
+            return []
+        if (isinstance(node, ast.Call) and isinstance(node.func, ast.Attribute) and node.func.attr == "replace"
+                and len(node.args) == 2 and not node.keywords):
+            old, new = _const_str(node.args[0], fdef.name), _const_str(node.args[1], fdef.name)
+            if len(old) != 1:
+                raise Untranslatable(f"{fdef.name}: replaces a multi-character string")
+            return expand(node.func.value) + [(old, new)]
+        if (isinstance(node, ast.Call) and isinstance(node.func, ast.Name) and node.func.id in local_fns
+                and len(node.args) == 1 and not node.keywords):
+            return expand(node.args[0]) + _replace_chain(local_fns[node.func.id], local_fns, depth + 1)
+        raise Untranslatable(f"{fdef.name}: not a chain of .replace(a, b)")
+    return expand(rets[0].value)
 
 
 def _sac_pad(fn):
@@ -57,7 +219,7 @@ def _sac_pad(fn):
     if len(calls) != 1:
         raise Untranslatable(f"{fn.name}: expected exactly one split_and_crop_lines call, found {len(calls)}")
     c = calls[0]
-    if len(c.args) != 2 or ast.unparse(c.args[1]) != "self.width":
+    if len(c.args) != 2 or ast.unparse(_resolve(c.args[1], _aliases(fn))) != "self.width":
         raise Untranslatable(f"{fn.name}: split_and_crop_lines(new_segments, self.width, ...) expected")
     kws = {k.arg: k.value for k in c.keywords}
     if set(kws) - {"pad"}:
@@ -95,115 +257,181 @@ def gen_record_facts(repo):
     console = find_class(tree, "Console")
     # escape chain of export_html
     eh = find_func(console.body, "export_html")
-    esc = find_func(eh.body, "escape")
-    rets = [s for s in esc.body if isinstance(s, ast.Return)]
-    if len(rets) != 1:
-        raise Untranslatable("export_html.escape: expected one return")
-    chain = []
-    node = rets[0].value
-    while isinstance(node, ast.Call):
-        if not (isinstance(node.func, ast.Attribute) and node.func.attr == "replace" and len(node.args) == 2
-                and not node.keywords):
-            raise Untranslatable("export_html.escape: not a chain of .replace(a, b)")
-        old, new = _const_str(node.args[0], "escape"), _const_str(node.args[1], "escape")
-        if len(old) != 1:
-            raise Untranslatable("export_html.escape: replaces a multi-character string")
-        chain.append((old, new))
-        node = node.func.value
-    if not (isinstance(node, ast.Name) and node.id == "text"):
-        raise Untranslatable("export_html.escape: chain does not start at `text`")
-    chain.reverse()
+    local_fns = {n.name: n for n in eh.body if isinstance(n, ast.FunctionDef)}
+    if "escape" not in local_fns:
+        raise Untranslatable("export_html: no local function `escape`")
+    chain = _replace_chain(local_fns["escape"], local_fns)
     out.append("Definition HTML_ESCAPE_CHAIN : list (Z * list Z) :=\n  ["
                + "; ".join(f"({ord(o)}, {strlit(n)})" for o, n in chain) + "].\n\n")
-    # href: is style.link passed through a call before being formatted into href="..."?
-    src = ast.unparse(eh)
+    # every text that reaches the page goes through `escape` (both variants): the segment text is rebound to
+    # escape(text) before it is formatted or appended
+    # href: which replace chain does style.link go through before it is formatted into href="..."?
     hrefs = [n for n in ast.walk(eh) if isinstance(n, ast.JoinedStr)
-             and any(isinstance(v, ast.Constant) and "href=" in str(v.value) for v in n.values)]
+             and any(isinstance(v, ast.Constant) and 'href="' in str(v.value) for v in n.values)]
     if len(hrefs) != 2:
-        raise Untranslatable(f"export_html: expected two href f-strings, found {len(hrefs)}")
+        raise Untranslatable(f"export_html: expected two href=\"...\" f-strings, found {len(hrefs)}")
+    assigned = {}
+    for n in ast.walk(eh):
+        if isinstance(n, ast.Assign) and len(n.targets) == 1 and isinstance(n.targets[0], ast.Name):
+            assigned.setdefault(n.targets[0].id, set()).add(ast.unparse(n.value))
     escaped = []
     for js in hrefs:
-        fv = [v for v in js.values if isinstance(v, ast.FormattedValue)]
-        if len(fv) != 2:
+        idx = [i for i, v in enumerate(js.values) if isinstance(v, ast.Constant) and 'href="' in str(v.value)]
+        nxt = js.values[idx[0] + 1] if idx and idx[0] + 1 < len(js.values) else None
+        if not (isinstance(nxt, ast.FormattedValue) and str(js.values[idx[0]].value).endswith('href="')):
             raise Untranslatable("export_html: href f-string has an unexpected shape")
-        first = ast.unparse(fv[0].value)
-        if first == "style.link":
-            escaped.append(False)
-        elif first in ("link", "href", "escape_attr(style.link)", "escape_href(style.link)"):
-            escaped.append(True)
+        v = nxt.value
+        if isinstance(v, ast.Name) and v.id in assigned:
+            if len(assigned[v.id]) != 1:
+                raise Untranslatable(f"export_html: `{v.id}` (the href value) is bound to different expressions")
+            v = ast.parse(next(iter(assigned[v.id])), mode="eval").body
+        if ast.unparse(v) == "style.link":
+            lchain = []
+        elif (isinstance(v, ast.Call) and isinstance(v.func, ast.Name) and v.func.id in local_fns
+              and len(v.args) == 1 and not v.keywords and ast.unparse(v.args[0]) == "style.link"):
+            lchain = _replace_chain(local_fns[v.func.id], local_fns)
         else:
-            raise Untranslatable(f"export_html: href value is {first!r}")
+            raise Untranslatable(f"export_html: href value is `{ast.unparse(v)}`")
+        if lchain == []:
+            escaped.append(False)
+        elif lchain == chain + [('"', "&quot;")]:
+            escaped.append(True)        # = attr_escape of model/Record.v
+        else:
+            raise Untranslatable(f"export_html: href value goes through the replace chain {lchain}")
     if escaped[0] != escaped[1]:
         raise Untranslatable("export_html: the two href sites differ")
-    if escaped[0] and "&quot;" not in src:
-        raise Untranslatable("export_html: href is transformed but '\"' is not replaced by &quot;")
     out.append(f"Definition href_is_escaped : bool := {_b(escaped[0])}.\n")
-    # control strings
-    (bell,) = _control_calls(find_func(console.body, "bell")) or [None]
-    out.append(f"Definition BELL_CODE : list Z := {strlit(_const_str(bell, 'bell'))}.\n")
-    cl = _control_calls(find_func(console.body, "clear"))
-    if len(cl) != 1:
-        raise Untranslatable("clear: expected one control() call")
-    a, b = _ifexp(cl[0], "home", "clear")
-    out.append(f"Definition CLEAR_HOME : list Z := {strlit(a)}.\nDefinition CLEAR_NOHOME : list Z := {strlit(b)}.\n")
+    # control strings: what bell / clear / show_cursor pass to self.control, per value of their flag
+    bell = _control_strings(find_func(console.body, "bell"), {})
+    if len(bell) != 1:
+        raise Untranslatable("bell: expected exactly one control() call")
+    out.append(f"Definition BELL_CODE : list Z := {strlit(bell[0])}.\n")
+    cl_fn = find_func(console.body, "clear")
+    p = _first_param(cl_fn)
+    cl = {v: _control_strings(cl_fn, {p: v}) for v in (True, False)}
+    if any(len(x) != 1 for x in cl.values()):
+        raise Untranslatable("clear: expected exactly one control() call on every path")
+    out.append(f"Definition CLEAR_HOME : list Z := {strlit(cl[True][0])}.\n"
+               f"Definition CLEAR_NOHOME : list Z := {strlit(cl[False][0])}.\n")
     sc_fn = find_func(console.body, "show_cursor")
-    sc = _control_calls(sc_fn)
-    if len(sc) != 1:
-        raise Untranslatable("show_cursor: expected one control() call")
-    a, b = _ifexp(sc[0], "show", "show_cursor")
-    out.append(f"Definition CURSOR_SHOW : list Z := {strlit(a)}.\nDefinition CURSOR_HIDE : list Z := {strlit(b)}.\n")
-    guards = [s for s in sc_fn.body if isinstance(s, ast.If)]
-    if len(guards) != 1 or ast.unparse(guards[0].test) != "self.is_terminal and (not self.legacy_windows)":
-        raise Untranslatable("show_cursor: guard is not `self.is_terminal and not self.legacy_windows`")
+    p = _first_param(sc_fn)
+    sc = {}
+    for show in (True, False):
+        for term in (True, False):
+            for legacy in (True, False):
+                got = _control_strings(sc_fn, {p: show, "self.is_terminal": term, "self.legacy_windows": legacy})
+                if (len(got) == 1) != (term and not legacy) or len(got) > 1:
+                    raise Untranslatable("show_cursor: does not emit exactly when `is_terminal and not legacy_windows`")
+                if got:
+                    sc.setdefault(show, set()).add(got[0])
+    if any(len(sc.get(v, ())) != 1 for v in (True, False)):
+        raise Untranslatable("show_cursor: the control string does not depend on `show` alone")
+    out.append(f"Definition CURSOR_SHOW : list Z := {strlit(next(iter(sc[True])))}.\n"
+               f"Definition CURSOR_HIDE : list Z := {strlit(next(iter(sc[False])))}.\n")
     # crop call sites
     out.append(f"Definition print_crop_pad : bool := {_b(_sac_pad(find_func(console.body, 'print')))}.\n")
     out.append(f"Definition log_crop_pad : bool := {_b(_sac_pad(find_func(console.body, 'log')))}.\n")
-    # Segment.simplify merge condition
+    # Segment.simplify: for which (styles equal, current is control, accumulated is control) does the loop merge?
     stree, _ = parse(repo, "rich/segment.py")
     simp = find_func(find_class(stree, "Segment").body, "simplify")
-    ifs = [n for n in ast.walk(simp) if isinstance(n, ast.If)]
-    if len(ifs) != 1:
-        raise Untranslatable("Segment.simplify: expected one if")
-    test = ifs[0].test
-    if not isinstance(test, ast.BoolOp) or not isinstance(test.op, ast.And):
-        raise Untranslatable("Segment.simplify: merge condition is not a conjunction")
-    parts = sorted(ast.unparse(v) for v in test.values)
-    base = sorted(["last_segment.style == segment.style", "not segment.is_control"])
-    if parts == base:
-        keeps = False
-    elif parts == sorted(base + ["not last_segment.is_control"]):
+    sal = _aliases(simp)
+    loops = [n for n in ast.walk(simp) if isinstance(n, ast.For)]
+    if len(loops) != 1 or not isinstance(loops[0].target, ast.Name):
+        raise Untranslatable("Segment.simplify: expected one  for <segment> in ...  loop")
+    cur = loops[0].target.id
+    acc = None
+    for n in ast.walk(loops[0]):
+        if (isinstance(n, ast.Assign) and len(n.targets) == 1 and isinstance(n.targets[0], ast.Name)
+                and isinstance(n.value, ast.Call) and n.value.args and isinstance(n.value.args[0], ast.BinOp)
+                and isinstance(n.value.args[0].op, ast.Add)):
+            acc = n.targets[0].id
+            merge_src = ast.unparse(_resolve(n.value, sal))
+    if acc is None:
+        raise Untranslatable("Segment.simplify: no merge assignment found")
+    if merge_src != f"Segment({acc}.text + {cur}.text, {acc}.style)":
+        raise Untranslatable(f"Segment.simplify: merged segment is `{merge_src}`")
+
+    def simp_outcome(eq, cur_ctl, acc_ctl):
+        env = {_cmp_key(ast.parse(f"{acc}.style", mode="eval").body, ast.parse(f"{cur}.style", mode="eval").body): eq,
+               f"{cur}.is_control": cur_ctl, f"{acc}.is_control": acc_ctl}
+        ev = []
+
+        def handler(st):
+            if isinstance(st, ast.Assign) and len(st.targets) == 1 and ast.unparse(st.targets[0]) == acc:
+                ev.append("merge" if isinstance(st.value, ast.Call) else
+                          ("shift" if ast.unparse(st.value) == cur else "?"))
+                return True
+            if isinstance(st, ast.Expr) and isinstance(st.value, ast.Yield) and ast.unparse(st.value.value) == acc:
+                ev.append("yield")
+                return True
+            return False
+        _run(loops[0].body, env, sal, handler, "Segment.simplify")
+        if ev == ["merge"]:
+            return True
+        if ev == ["yield", "shift"]:
+            return False
+        raise Untranslatable(f"Segment.simplify: loop body does {ev}")
+    table = {(e, a, b): simp_outcome(e, a, b) for e in (True, False) for a in (True, False) for b in (True, False)}
+    if all(table[k] == (k[0] and not k[1] and not k[2]) for k in table):
         keeps = True
+    elif all(table[k] == (k[0] and not k[1]) for k in table):
+        keeps = False
     else:
-        raise Untranslatable(f"Segment.simplify: merge condition is {parts}")
+        raise Untranslatable(f"Segment.simplify: merge table is {table}")
     out.append(f"Definition simplify_keeps_control : bool := {_b(keeps)}.\n")
-    # Console._render_buffer: order of the control test and the style test in the loop
+    # Console._render_buffer: what the loop emits for a segment, per (style truthy, is_terminal, is_control)
     rb = find_func(console.body, "_render_buffer")
+    ral = _aliases(rb)
     loops = [n for n in rb.body if isinstance(n, ast.For)]
-    if len(loops) != 1 or ast.unparse(loops[0].target) != "(text, style, is_control)":
+    if (len(loops) != 1 or not isinstance(loops[0].target, ast.Tuple) or len(_names(loops[0].target)) != 3
+            or ast.unparse(loops[0].iter) != "buffer"):
         raise Untranslatable("_render_buffer: expected one  for text, style, is_control in buffer  loop")
-    body = loops[0].body
-    ctl_test = "not_terminal and is_control"
-    if "not_terminal = not self.is_terminal" not in ast.unparse(rb):
-        raise Untranslatable("_render_buffer: not_terminal is not `not self.is_terminal`")
+    tv, sv, cv = _names(loops[0].target)
+    recs = [n for n in ast.walk(rb) if isinstance(n, ast.Call)
+            and ast.unparse(n) == "self._record_buffer.extend(buffer)"]
+    if len(recs) != 1 or recs[0].lineno >= loops[0].lineno:
+        raise Untranslatable("_render_buffer: the record is not extended with the buffer before the loop")
 
-    def _is_styled_append(stmts):
-        return (len(stmts) == 1 and "style.render(text, color_system=color_system, legacy_windows=legacy_windows)"
-                in ast.unparse(stmts[0]) and ast.unparse(stmts[0]).startswith("append("))
+    def rb_outcome(style, term, ctl):
+        env = {sv: style, cv: ctl, "self.is_terminal": term}
+        ev = []
 
-    def _is_plain_append(stmts):
-        return len(stmts) == 1 and ast.unparse(stmts[0]) == "append(text)"
+        def handler(st):
+            if not (isinstance(st, ast.Expr) and isinstance(st.value, ast.Call)):
+                return False
+            f = _resolve(st.value.func, ral)
+            if not (isinstance(f, ast.Attribute) and f.attr == "append" and len(st.value.args) == 1):
+                return False
+            a = _pick(_resolve(st.value.args[0], ral), env, "_render_buffer")
+            if ast.unparse(a) == tv:
+                ev.append("plain")
+                return True
+            if (isinstance(a, ast.Call) and ast.unparse(a.func) == f"{sv}.render" and [ast.unparse(x) for x in a.args] == [tv]
+                    and {k.arg: ast.unparse(k.value) for k in a.keywords}
+                    == {"color_system": "self._color_system", "legacy_windows": "self.legacy_windows"}):
+                ev.append("styled")
+                return True
+            raise Untranslatable(f"_render_buffer: appends `{ast.unparse(a)[:60]}`")
+        _run(loops[0].body, env, ral, handler, "_render_buffer")
+        return tuple(ev)
     first = None
-    if (len(body) == 1 and isinstance(body[0], ast.If) and ast.unparse(body[0].test) == "style"
-            and _is_styled_append(body[0].body) and len(body[0].orelse) == 1 and isinstance(body[0].orelse[0], ast.If)
-            and ast.unparse(body[0].orelse[0].test) == f"not ({ctl_test})"
-            and _is_plain_append(body[0].orelse[0].body) and not body[0].orelse[0].orelse):
-        first = False
-    elif (len(body) == 2 and isinstance(body[0], ast.If) and ast.unparse(body[0].test) == ctl_test
-          and len(body[0].body) == 1 and isinstance(body[0].body[0], ast.Continue) and not body[0].orelse
-          and isinstance(body[1], ast.If) and ast.unparse(body[1].test) == "style"
-          and _is_styled_append(body[1].body) and _is_plain_append(body[1].orelse)):
-        first = True
-    if first is None:
-        raise Untranslatable("_render_buffer: loop body has neither of the two known shapes")
+    for style in (True, False):
+        for term in (True, False):
+            for ctl in (True, False):
+                got = rb_outcome(style, term, ctl)
+                if not ((not term) and ctl):
+                    want = ("styled",) if style else ("plain",)
+                elif not style:
+                    want = ()
+                else:                                  # styled control segment off a terminal: the fact
+                    if got == ():
+                        first = True
+                    elif got == ("styled",):
+                        first = False
+                    else:
+                        raise Untranslatable(f"_render_buffer: styled control segment off a terminal -> {got}")
+                    continue
+                if got != want:
+                    raise Untranslatable(f"_render_buffer: (style={style}, terminal={term}, control={ctl}) -> {got}")
     out.append(f"Definition render_control_test_first : bool := {_b(first)}.\n")
     return "".join(out)
